@@ -350,11 +350,46 @@ def run_proj(c):
         else:
             ex = [special.digamma(p[0]) - special.digamma(p[0] + p[1]), special.digamma(p[1]) - special.digamma(p[0] + p[1])]
         out["member_stats"] = [[hexf(v) for v in e] for e in ex]
+        if fam == "beta" and c.get("t") is None:
+            out["newton5"] = beta_newton5(X, LW)
     except BaseException as ex:  # noqa
         out["exc"] = exc_name(ex)
         out["msg"] = str(ex)[:200]
     out["tabs"] = tabs.dump()
     return out
+
+
+def beta_newton5(X, LW):
+    """Independent re-run (scalar arithmetic, no library code) of the iteration inv_beta_suffstats documents: start
+    max(1, (1 + G/(1 - sum G))/2) with G = exp(target statistics), five Newton steps on digamma(a) - digamma(a+b) = t0,
+    digamma(b) - digamma(a+b) = t1.  Used only to recognise the known finding `beta-newton-leaves-domain`: the class is
+    given when THIS prediction has a non-positive component and the library returned exactly these parameters."""
+    pred = []
+    n, dcols = len(X), len(X[0])
+    for j in range(dcols):
+        lws = [0.0] * n if LW is None else [LW[i][j] for i in range(n)]
+        m = max(lws)
+        w = [math.exp(l - m) for l in lws]
+        sw = math.fsum(w)
+        t0 = math.fsum(wi * math.log(X[i][j]) for i, wi in enumerate(w)) / sw
+        t1 = math.fsum(wi * math.log1p(-X[i][j]) for i, wi in enumerate(w)) / sw
+        g0, g1 = math.exp(t0), math.exp(t1)
+        dg = 1 - (g0 + g1)
+        a, b = max(1.0, (1 + g0 / dg) / 2), max(1.0, (1 + g1 / dg) / 2)
+        ok = True
+        for _ in range(5):
+            try:
+                pab = float(special.digamma(a + b)); p1ab = float(special.polygamma(1, a + b))
+                f0 = float(special.digamma(a)) - pab - t0
+                f1 = float(special.digamma(b)) - pab - t1
+                j00 = float(special.polygamma(1, a)) - p1ab; j11 = float(special.polygamma(1, b)) - p1ab; j01 = -p1ab
+                det = j00 * j11 - j01 * j01
+                a, b = a - (j11 * f0 - j01 * f1) / det, b - (j00 * f1 - j01 * f0) / det
+            except (ZeroDivisionError, OverflowError, ValueError):
+                ok = False
+                break
+        pred.append([hexf(a), hexf(b)] if ok and math.isfinite(a) and math.isfinite(b) else None)
+    return pred
 
 
 # --------------------------------------------------------------------------- dens
